@@ -19,7 +19,7 @@ ASSUMPTIONS = [
     "only upper-case 'N' is inaccessible (as the statement says); blank lines inside a record and duplicate sequence names are not generated",
     "exclude rows have positive length (a zero-width exclude row is counted out-of-domain)",
 ]
-BUDGET_S = {"quick": 200, "thorough": 1200}
+BUDGET_S = {"quick": 600, "thorough": 2400}
 NAMES_CANON = ["chr1", "2", "chrX", "chr17", "Y", "chr3"]
 NAMES_NONCANON = ["chrM", "MT", "chrUn_gl000220", "chr1_random", "HLA-A", "chrEBV", "chr6_alt"]
 
